@@ -189,6 +189,9 @@ def check(ctx):
                         for u_, v_ in zip(g_.uris, [T.UADouble(0.0), T.UADouble(-0.0), T.UAFloat(-0.0)]):
                             k_ = (u_, "s", "Zero"); g_.nodes[k_] = dict(cls="UAVariable", bname=(u_, "Zero"), display="Zero", desc=None, attrs={}, value=v_); g_.order.append(k_)
                             g_.refs.append(((nsgen.UA, "i", "85"), k_, (nsgen.UA, "i", "35")))
+                        # the first namespace requires the base model without saying which version or date; the base document has a model that says both
+                        g_.models[g_.uris[0]]["required"] = [dict(uri=nsgen.UA, version=None, pubdate=None)] + [r_ for r_ in g_.models[g_.uris[0]]["required"] if r_["uri"] != nsgen.UA]
+                        g_.base_model = True
                     g, ds = writeprops.make_graph(frng, True, hostile=False, clash=False, extra=zeros)
                     if any(a[0] != b[0] and a[0] in g.uris and b[0] in g.uris and a in g.nodes and b in g.nodes for a, b, _ in g.refs): break
             elif ci == 1:
@@ -227,6 +230,8 @@ def check(ctx):
                 opening = opening + [("write", u, True, None) for u in wuris] + ([("write", u, False, None) for u in reversed(wuris)] if ci % 4 == 0 else [])
             # the fixed first case starts with a write through create_nodeset2_file that brings its own xmlns declarations
             if ci == 0 and len(G.namespaces) > 1 and G.namespaces[1] in g.uris: opening = [("write_xmlns", G.namespaces[1])] + opening
+            # ... then a write that asks for a new model version, of the namespace whose required model is incomplete, and the same write plain
+            if ci == 0 and g.uris[0] in G.namespaces: opening = opening[:1] + [("write", g.uris[0], True, "9.9"), ("write", g.uris[0], True, None)] + opening[1:]
             if ci == 1: opening = [("lookup", "Obj1"), ("norm_nodes", None), ("norm_refs", None), ("lookup", "Obj2"), ("norm_nodes", g.uris[0]), ("write", g.uris[0], True, None)] + opening
             for step in range(n_ops + len(opening)):
                 st_before = rng.getstate()
